@@ -1114,6 +1114,7 @@ impl Vm {
                 .expect("Expected ExcHandler.");
             (handler.finally_ip, handler.init_stack_size)
         };
+        self.active_fiber_mut().close_upvalues(init_stack_size);
         self.active_fiber_mut().stack.truncate(init_stack_size);
         self.ip = new_ip;
     }
@@ -1600,6 +1601,8 @@ impl Vm {
             return Err(self.new_error_from_value(exc_object));
         };
 
+        self.active_fiber_mut()
+            .close_upvalues(handler.init_stack_size);
         self.active_fiber_mut()
             .stack
             .truncate(handler.init_stack_size);
